@@ -51,6 +51,7 @@ class ScanInfo:
     descents: list[Event] = field(default_factory=list)
     reads: list[Event] = field(default_factory=list)
     problems: list[str] = field(default_factory=list)  # why the walk could not be recognised
+    ctor_heap: dict = field(default_factory=dict)  # fields of the scanner as set by its constructor
 
 
 def _through_wrappers(t: Term) -> Term:
@@ -70,9 +71,19 @@ def analyse(repo: Repo) -> ScanInfo:
     parse = cls.methods.get("parse")
     if parse is None:
         raise AnalysisError("Parser.parse (public entry point of the directory scan) not found")
+    # fields set by the constructor are expressed through the (public) constructor parameters: Parser.<param>
+    heap: dict = {}
+    init = repo.lookup_method(cls, "__init__")
+    self_t = ("param", parse.param_names[0])
+    if init is not None and init.param_names:
+        sx0 = SymX(repo, T, keep=lambda f: f.name == EXCLUSION_PREDICATE)
+        tr0 = sx0.run(init, args={q: ("param", f"{cls.name}.{q}") for q in init.param_names[1:]}, self_term=self_t)
+        if tr0.final is not None and tr0.final.alive:
+            heap = {k: v for k, v in tr0.final.heap.items() if k[0] == self_t}
     sx = SymX(repo, T, keep=lambda f: f.name == EXCLUSION_PREDICATE)
-    trace = sx.run(parse)
+    trace = sx.run(parse, heap=heap)
     info = ScanInfo(parse, sx, trace)
+    info.ctor_heap = heap
     cache["info"] = info
     # the returned name collection: first component of every returned pair
     firsts = set()
